@@ -368,6 +368,18 @@ def gen_laws(rng, tier):
         s = law_scenario(rng, t, long_n, "edge", fx_over=fo)
         s["a"]["k"], s["a"]["amp"] = rng.choice(["full", "dc", "noise"]), 1.0
         scen.append(s)
+    # directed: a delay with a stateful effect in its feedback loop, fed with an impulse (long stretches of exact silence), one
+    # frame at a time against whole buffers - what the nested effect does must not depend on where the slices fall
+    for nested in ({"t": "filter", "mode": 0, "cutoff": 1000.0, "res": 0.3, "mix": 1.0},
+                   {"t": "delay", "time_ns": 2000000, "fb": -6.0, "mix": 0.5, "nested": []},
+                   {"t": "reverb", "fb": 0.6, "damp": 0.3, "width": 1.0, "mix": 0.5},
+                   {"t": "eq", "kind": 0, "freq": 800.0, "gain": 6.0, "q": 1.0}):
+        for sig_kind in ("impulse", "burst"):
+            fx = {"t": "delay", "time_ns": 10000000, "fb": -6.0, "mix": 0.5, "nested": [nested]}
+            scen.append({"kind": "law", "fx": fx, "fx_dry": dict(fx, mix=0.0), "lin": True, "k": 1, "sr": 8000, "n": 1000, "bs": 128,
+                         "a": {"k": sig_kind, "seed": 11, "amp": 1.0}, "b": {"k": "noise", "seed": 12, "amp": 0.5}, "c": [2, 1],
+                         "p1": {"k": "fixed", "len": 128}, "p2": {"k": "ones"}, "laws": ["finite", "split"], "cls": "normal",
+                         "par": "directed delay 10 ms nested[%s] %s" % (nested["t"], sig_kind), "src": "directed-nested"})
     return scen
 
 
